@@ -72,7 +72,12 @@ theorem rename_spec {m m' : MFS} (s : Side) {ko kn : Key} {r : Except Err Unit} 
   · -- found, found
     cases nn with
     | link t mt => cases hnnl
-    | dir mt => simp only at h; cases h; exact hsame
+    | dir mt =>
+      simp only at h
+      have hc : ¬ (osRoot bk kk s ++ ko = osRoot bk kk s ++ kn ∧
+          kp (osRoot bk kk s ++ ko) ≠ kp (osRoot bk kk s ++ kn)) := fun hc => hc.2 (congrArg kp hc.1)
+      rw [if_neg hc] at h
+      simp only at h; cases h; exact hsame
     | file c mt =>
       simp only at h
       split at h
